@@ -115,6 +115,18 @@ Definition prop_utf8 (p : property) : bool :=
 Definition member_utf8 (m : member) : bool :=
   utf8_b (value_of m) && forallb prop_utf8 (props_of m).
 
+(** ** Size of the header that carries a baggage (W3C: key "=" value *(";" property),
+    list-members joined by ","; every octet that is not a baggage-octet, and '%', is
+    percent-encoded as three octets). *)
+Definition escaped_len (v : bytes) : N :=
+  fold_right (fun c n => (if baggage_octet c && negb (c =? 37) then 1 else 3) + n) 0 v.
+Definition prop_len (p : property) : N :=
+  blen (fst p) + match snd p with Some v => 1 + escaped_len v | None => 0 end.
+Definition member_len (m : member) : N :=
+  blen (key_of m) + 1 + escaped_len (value_of m) + fold_right (fun p n => 1 + prop_len p + n) 0 (props_of m).
+Definition header_len (b : list member) : N :=
+  fold_right (fun m n => member_len m + n) 0 b + (blen b - 1).
+
 (** ** Baggage as a finite map *)
 Fixpoint lookup (b : list member) (k : bytes) : option member :=
   match b with
